@@ -12,7 +12,8 @@ Fixpoint compare (sp : list hp) (a b : vals) : option comparison :=
       match a !! hname h with
       | None => compare rest a b
       | Some x =>
-          match b !! hname h with
+          (* a trial started before this entry was discovered runs with the default, the head of hall *)
+          match (match b !! hname h with Some y => Some y | None => head (hall h) end) with
           | None => None
           | Some y =>
               if decide (x = y) then compare rest a b
